@@ -351,7 +351,10 @@ example : Huffman.hencode [0, 255, 97] = [255, 199, 255, 255, 220, 63] ∧
     (4) Behind the three `debug_assert!`s of `write_bits` its subtractions, shift amounts and table indexes are
         in range.
     (5) The tree under check has the shape the translator says (`hugeCodingRefused`; any third shape of
-        `put` / `ensure_free_space` / `write_bits` / `forwards` is refused by the translator). -/
+        `put` / `ensure_free_space` / `write_bits` / `forwards` is refused by the translator).
+    (6) Repaired shape: on EVERY byte string, whatever `Vec` does, nothing overflows — the answer is `Err`
+        (`tooLong`) or `Ok` of the model's bytes (`huff encn 0a 1145324611`: a coding of 2^32 − 4 bytes is
+        written, one symbol more is refused). -/
 theorem C15_huffman_encoder_positions_fit :
     (∀ (g : Bool) (grow : Nat → Nat → Nat) (s : List Nat), (∀ x ∈ s, x < 256) →
       7 * (Huffman.hencode s).length < 2 ^ 32 →
@@ -365,9 +368,12 @@ theorem C15_huffman_encoder_positions_fit :
       (bit + count ≤ 8 → bit ≤ 8 ∧ 8 - bit - count < 8 ∧ bit + count ≤ 8 ∧ 8 - bit ≤ 8 ∧ 8 - count - bit ≤ 8) ∧
       (8 < bit + count → 8 - bit ≤ count ∧ count - (8 - bit) < 8 ∧ count - (8 - bit) ≤ 8 ∧
         8 - (count - (8 - bit)) < 8 ∧ 8 - bit ≤ 8)) ∧
-    (∀ grow s, Huffman.hencodeT grow s = Huffman.hencodeC H3.Gen.HuffEnc.hugeCodingRefused grow s) :=
+    (∀ grow s, Huffman.hencodeT grow s = Huffman.hencodeC H3.Gen.HuffEnc.hugeCodingRefused grow s) ∧
+    (∀ (grow : Nat → Nat → Nat) (s : List Nat), (∀ x ∈ s, x < 256) →
+      Huffman.hencodeC true grow s = some .tooLong ∨
+      Huffman.hencodeC true grow s = some (.ok (Huffman.hencode s))) :=
   ⟨Huffman.hencodeC_eq, Huffman.hencodeC_overflow, Huffman.ensureFreeSpaceC_mul_overflow,
-    Huffman.writeBits_ops_in_range, fun _ _ => rfl⟩
+    Huffman.writeBits_ops_in_range, fun _ _ => rfl, Huffman.hencodeC_repaired⟩
 
 -- the checked encoder on RFC 7541 C.4.1 (both shapes, the standard library's growth); the reservation at byte
 -- position 613 566 757 = ⌈2^32 / 7⌉ (old shape: overflow; repaired: none); the repaired `put` near `u32::MAX`
